@@ -1,4 +1,7 @@
 #include "system/ReaderWriterMutex.h"
+#ifdef MUSCLE_VERIF_HOOKS
+# include "support/VerifHooks.h"
+#endif
 
 namespace muscle {
 
@@ -21,6 +24,9 @@ status_t ReaderWriterMutex :: LockReadOnlyAux(uint64 optTimeoutTimestamp) const
    {
       // Easy case:  we already have at least read-only access, so just increase our read-only-recursion-count and we are done
       ts->_readOnlyRecurseCount++;
+#ifdef MUSCLE_VERIF_HOOKS
+      MUSCLE_VERIF_POINT(MVH_RW_READER_ADMITTED, this, 2);
+#endif
       return B_NO_ERROR;
    }
    else if (IsOkayForReaderThreadsToExecuteNow() == false)
@@ -32,16 +38,28 @@ status_t ReaderWriterMutex :: LockReadOnlyAux(uint64 optTimeoutTimestamp) const
       if (ts == NULL) return B_OUT_OF_MEMORY;
 
       RefCountableWaitConditionRef tempWCRef = ts->_waitConditionRef;  // avoid race condition after we unlock _stateMutex below
+#ifdef MUSCLE_VERIF_HOOKS
+      MUSCLE_VERIF_POINT(MVH_RW_READER_PARKED, this, 0);
+#endif
       mg.UnlockEarly();   // necessary because we don't want to be holding this mutex while we Wait() for possibly a long time
+#ifdef MUSCLE_VERIF_HOOKS
+      MUSCLE_VERIF_POINT(MVH_RW_AFTER_EARLY_UNLOCK, this, 0);
+#endif
 
       while(true)
       {
          status_t ret = tempWCRef()->_waitCondition.Wait(optTimeoutTimestamp);  // may block for a long time
+#ifdef MUSCLE_VERIF_HOOKS
+         MUSCLE_VERIF_POINT(MVH_RW_AFTER_WAKE, this, 0);
+#endif
 
          DECLARE_MUTEXGUARD(_stateMutex);  // gotta re-lock now, so we can safely update our state-tables
          if (ret.IsError())
          {
             (void) _waitingReaderThreads.Remove(tid);  // clean up!
+#ifdef MUSCLE_VERIF_HOOKS
+            MUSCLE_VERIF_POINT(MVH_RW_READER_TIMEDOUT, this, 0);
+#endif
             MaybeNotifySomeWaitingThreads();  // avoid a potential stall after a B_TIMED_OUT
             return ret;
          }
@@ -60,6 +78,9 @@ status_t ReaderWriterMutex :: LockReadOnlyAux(uint64 optTimeoutTimestamp) const
             else ret = B_OUT_OF_MEMORY;
 
             (void) _waitingReaderThreads.Remove(tid);
+#ifdef MUSCLE_VERIF_HOOKS
+            if (ret.IsOK()) MUSCLE_VERIF_POINT(MVH_RW_READER_ADMITTED, this, 0);
+#endif
             if (ret.IsError()) MaybeNotifySomeWaitingThreads();  // avoid a potential stall on OOM
 
             return ret;
@@ -71,6 +92,9 @@ status_t ReaderWriterMutex :: LockReadOnlyAux(uint64 optTimeoutTimestamp) const
       // Nobody is currently holding the writer-lock, so we can just register and start executing immediately
       ts = GetOrAllocateThreadState(_executingThreads, tid, false);
       if (ts) ts->_readOnlyRecurseCount++;
+#ifdef MUSCLE_VERIF_HOOKS
+      if (ts) MUSCLE_VERIF_POINT(MVH_RW_READER_ADMITTED, this, 1);
+#endif
       return ts ? B_NO_ERROR : B_OUT_OF_MEMORY;
    }
 #endif
@@ -98,6 +122,9 @@ status_t ReaderWriterMutex :: LockReadWriteAux(uint64 optTimeoutTimestamp) const
          // Easy cases:  just increment the read-write-recurse-counts and we're done
          ts->_readWriteRecurseCount++;
          _totalReadWriteRecurseCount++;
+#ifdef MUSCLE_VERIF_HOOKS
+         MUSCLE_VERIF_POINT(MVH_RW_WRITER_ADMITTED, this, 2);
+#endif
          return B_NO_ERROR;
       }
       else
@@ -111,6 +138,9 @@ status_t ReaderWriterMutex :: LockReadWriteAux(uint64 optTimeoutTimestamp) const
          mg.UnlockEarly();
 
          for (uint32 i=0; i<readOnlyRecurseCount; i++) MRETURN_ON_ERROR(UnlockReadOnly());
+#ifdef MUSCLE_VERIF_HOOKS
+         MUSCLE_VERIF_POINT(MVH_RW_UPGRADE_AFTER_RELEASE, this, readOnlyRecurseCount);
+#endif
          const status_t lrwRet = LockReadWriteAux(optTimeoutTimestamp);
          for (uint32 i=0; i<readOnlyRecurseCount; i++)
          {
@@ -134,6 +164,9 @@ status_t ReaderWriterMutex :: LockReadWriteAux(uint64 optTimeoutTimestamp) const
       {
          ts->_readWriteRecurseCount++;
          _totalReadWriteRecurseCount++;
+#ifdef MUSCLE_VERIF_HOOKS
+         MUSCLE_VERIF_POINT(MVH_RW_WRITER_ADMITTED, this, 1);
+#endif
       }
 
       return ts ? B_NO_ERROR : B_OUT_OF_MEMORY;
@@ -147,16 +180,28 @@ status_t ReaderWriterMutex :: LockReadWriteAux(uint64 optTimeoutTimestamp) const
       if (ts == NULL) return B_OUT_OF_MEMORY;
 
       RefCountableWaitConditionRef tempWCRef = ts->_waitConditionRef;  // avoid race condition on (ts) after we unlock _stateMutex below
+#ifdef MUSCLE_VERIF_HOOKS
+      MUSCLE_VERIF_POINT(MVH_RW_WRITER_PARKED, this, 0);
+#endif
       mg.UnlockEarly();   // necessary because we don't want to be holding this mutex while we Wait() for possibly a long time
+#ifdef MUSCLE_VERIF_HOOKS
+      MUSCLE_VERIF_POINT(MVH_RW_AFTER_EARLY_UNLOCK, this, 1);
+#endif
 
       while(true)
       {
          status_t ret = tempWCRef()->_waitCondition.Wait(optTimeoutTimestamp);  // may block for a long time
+#ifdef MUSCLE_VERIF_HOOKS
+         MUSCLE_VERIF_POINT(MVH_RW_AFTER_WAKE, this, 1);
+#endif
 
          DECLARE_MUTEXGUARD(_stateMutex);  // gotta re-lock now, so we can safely update our state-tables
          if (ret.IsError())
          {
             (void) _waitingWriterThreads.Remove(tid);  // clean up!
+#ifdef MUSCLE_VERIF_HOOKS
+            MUSCLE_VERIF_POINT(MVH_RW_WRITER_TIMEDOUT, this, 0);
+#endif
             MaybeNotifySomeWaitingThreads();  // avoid a potential stall after a B_TIMED_OUT
             return ret;
          }
@@ -180,6 +225,9 @@ status_t ReaderWriterMutex :: LockReadWriteAux(uint64 optTimeoutTimestamp) const
             else ret = B_LOGIC_ERROR;  // should never happen, but we're paranoid
 
             (void) _waitingWriterThreads.Remove(tid);   // RemoveFirst() would also work here but it makes Claude nervous
+#ifdef MUSCLE_VERIF_HOOKS
+            if (ret.IsOK()) MUSCLE_VERIF_POINT(MVH_RW_WRITER_ADMITTED, this, 0);
+#endif
             if (ret.IsError()) MaybeNotifySomeWaitingThreads();  // avoid a potential stall on OOM
             return ret;
          }
@@ -211,6 +259,9 @@ status_t ReaderWriterMutex :: UnlockReadOnlyAux() const
    ThreadState * ts = _executingThreads.Get(tid); // threads that currently have either read-only or read/write access
    if ((ts == NULL)||(ts->_readOnlyRecurseCount == 0)) return B_LOCK_FAILED;  // can't release a read-only lock if our thread doesn't have one!
 
+#ifdef MUSCLE_VERIF_HOOKS
+   MUSCLE_VERIF_POINT(MVH_RW_READER_RELEASED, this, 0);
+#endif
    if ((--ts->_readOnlyRecurseCount == 0)&&(ts->_readWriteRecurseCount == 0))
    {
       (void) _executingThreads.Remove(tid);  // invalidates (ts)
@@ -239,6 +290,9 @@ status_t ReaderWriterMutex :: UnlockReadWriteAux() const
    MASSERT(_totalReadWriteRecurseCount > 0, "ReaderWriterMutex::UnlockReadWriteAux():  _totalReadWriteRecurseCount was already zero!?");
 
    const uint32 tsReadOnlyRecurseCount = ts->_readOnlyRecurseCount;  // save this here in case (ts) gets invalidated on the next line
+#ifdef MUSCLE_VERIF_HOOKS
+   MUSCLE_VERIF_POINT(MVH_RW_WRITER_RELEASED, this, 0);
+#endif
    if ((--ts->_readWriteRecurseCount == 0)&&(tsReadOnlyRecurseCount == 0)) (void) _executingThreads.Remove(tid);  // invalidates (ts)
    if (--_totalReadWriteRecurseCount == 0)
    {
